@@ -18,7 +18,7 @@ structure St where
   types : Std.HashMap Nat Ty := {}
   names : Std.HashMap Nat B := {}
   stypes : Std.HashMap Nat Ty := {}
-  snames : Std.HashMap Nat (B × B × B) := {}
+  snames : Std.HashMap Nat (B × B × B × B) := {}
 
 def H : B → Nat := XXH3.xxh3
 
@@ -118,6 +118,11 @@ def wrapTy (a : Ty) : Ty :=
   .adt { name := ascii "Wrap", isEnum := false, zero := false, deepAttr := false, reprs := [], alignAttr := 1, consts := [] }
     (.cons (ascii "Wrap") (.cons (ascii "a") true a (.cons (ascii "tail") false (.prim (.int .u16)) .nil)) .nil)
 
+/-- `struct WrapM<A> { a: A, tail: u16 }` of the harness, stamped out by a `macro_rules!` (same shape as `Wrap`) -/
+def wrapTyM (a : Ty) : Ty :=
+  .adt { name := ascii "WrapM", isEnum := false, zero := false, deepAttr := false, reprs := [], alignAttr := 1, consts := [] }
+    (.cons (ascii "WrapM") (.cons (ascii "a") true a (.cons (ascii "tail") false (.prim (.int .u16)) .nil)) .nil)
+
 def serHex (t : Ty) (name : B) (v : Val) : String :=
   let hdr := t.header H name
   let s := t.ser H name v
@@ -129,7 +134,7 @@ def wrapTyE (a : Ty) : Ty :=
     (.cons (ascii "Held") (.cons (ascii "0") false (.prim (.int .u8)) (.cons (ascii "1") true a .nil))
       (.cons (ascii "Empty") .nil .nil))
 
-def doSer3 (t : Ty) (vn wn en : B) (v : Val) : String :=
+def doSer3 (t : Ty) (vn wn en mn : B) (v : Val) : String :=
   let wv := Val.record [v, .bits 0xBEEF]
   let ev := Val.variant 0 [.bits 7, v]
   let eu := Val.variant 1 []
@@ -140,7 +145,9 @@ def doSer3 (t : Ty) (vn wn en : B) (v : Val) : String :=
   " WI:" ++ (if z then serHex (wrapTy (.serIter t)) wn wv else "-") ++
   " EV:" ++ serHex (wrapTyE (.vec t)) en ev ++ " ES:" ++ serHex (wrapTyE (.sliceRef t)) en ev ++
   " EI:" ++ (if z then serHex (wrapTyE (.serIter t)) en ev else "-") ++
-  " EU:" ++ serHex (wrapTyE (.sliceRef t)) en eu ++ " EUV:" ++ serHex (wrapTyE (.vec t)) en eu ++ " intact=true"
+  " EU:" ++ serHex (wrapTyE (.sliceRef t)) en eu ++ " EUV:" ++ serHex (wrapTyE (.vec t)) en eu ++
+  " MV:" ++ serHex (wrapTyM (.vec t)) mn wv ++ " MS:" ++ serHex (wrapTyM (.sliceRef t)) mn wv ++
+  " MI:" ++ (if z then serHex (wrapTyM (.serIter t)) mn wv else "-") ++ " intact=true"
 
 def doIter (t : Ty) (vn : B) (v : Val) (a : Nat) : String :=
   match v with
@@ -193,9 +200,9 @@ def step (st : St) (line : String) : St × Option String :=
       match i.toNat? with
       | some i => ({ st with names := st.names.insert i (unhex h.toList) }, none)
       | none => (st, some "bad-op")
-  | ["sname", i, a, b, c] =>
+  | ["sname", i, a, b, c, d] =>
       match i.toNat? with
-      | some i => ({ st with snames := st.snames.insert i (unhex a.toList, unhex b.toList, unhex c.toList) }, none)
+      | some i => ({ st with snames := st.snames.insert i (unhex a.toList, unhex b.toList, unhex c.toList, unhex d.toList) }, none)
       | none => (st, some "bad-op")
   | ["stype", i, ty] =>
       match i.toNat?, parseTy ty with
@@ -204,13 +211,13 @@ def step (st : St) (line : String) : St × Option String :=
   | ["ser3", i, val] =>
       match i.toNat?.bind (st.stypes[·]?), parseVal val with
       | some t, some v =>
-        let (vn, wn, en) := st.snames.getD i.toNat! ([], [], [])
-        if !(Ty.vec t).wt v then (st, some "illtyped") else (st, some (doSer3 t vn wn en v))
+        let (vn, wn, en, mn) := st.snames.getD i.toNat! ([], [], [], [])
+        if !(Ty.vec t).wt v then (st, some "illtyped") else (st, some (doSer3 t vn wn en mn v))
       | _, _ => (st, some "badval")
   | ["iter", i, val, a] =>
       match i.toNat?.bind (st.stypes[·]?), parseVal val, a.toNat? with
       | some t, some v, some a =>
-        let (vn, _, _) := st.snames.getD i.toNat! ([], [], [])
+        let (vn, _, _, _) := st.snames.getD i.toNat! ([], [], [], [])
         (st, some (doIter t vn v a))
       | _, _, _ => (st, some "badval")
   | ["type", i, ty] =>
@@ -245,6 +252,18 @@ def step (st : St) (line : String) : St × Option String :=
         (st, some ("schema ok " ++ maskedHex s m ++ " " ++
           String.join (rows.map fun r => toString r.depth ++ "," ++ toString r.off ++ "," ++ toString r.size ++ "," ++ toString r.align ++ ";")))
       | _, _ => (st, some "badval")
+  | ["schemaat", i, k, val] =>
+      match i.toNat?.bind (st.types[·]?), k.toNat?, parseVal val with
+      | some t, some k, some v =>
+        if !t.wt v then (st, some "illtyped") else
+        let name := st.names.getD i.toNat! []
+        let hdr := t.header H name
+        let s := zeros k ++ hdr ++ t.enc v (k + hdr.length)
+        let m := trues (k + hdr.length) ++ t.encMask v (k + hdr.length)
+        let rows := Tree.rowsList (t.schemaTreesAt name v k) 1
+        (st, some ("schema ok " ++ maskedHex s m ++ " " ++
+          String.join (rows.map fun r => toString r.depth ++ "," ++ toString r.off ++ "," ++ toString r.size ++ "," ++ toString r.align ++ ";")))
+      | _, _, _ => (st, some "badval")
   | ["dtype", _] => (st, some "dtype same *")
   | ["zcc", i] =>
       match i.toNat?.bind (st.types[·]?) with
@@ -314,6 +333,13 @@ def step (st : St) (line : String) : St × Option String :=
         (st, some ("leak first=" ++ status ++ " oks=" ++ toString (if status == "ok" then n else 0) ++
                    " panics=" ++ toString (if status == "panic" then n else 0) ++ " heap=0 maps=0"))
       | _, _ => (st, some "badval")
+  -- very large files: whatever the size, the whole stream is accepted by every entry point (C01 / C02 / C08) and a strict
+  -- prefix is refused with a read error by the full-copy ones (C11); what the others answer on a prefix is left to the oracle
+  | ["bigfile", _, _, loader, pre] =>
+      let l := (loader.splitOn ":").headD ""
+      if pre == "-" then (st, some "bigfile ok -")
+      else if l == "dfull" || l == "full" then (st, some "bigfile err read")
+      else (st, some "bigfile * *")
   | ["dropcheck", _, _] => (st, some "dropcheck ok")     -- the region outlives the structure (Resources.loadTrace: release after the last use)
   | ["floadc", i, loader, cut, val] =>
       match i.toNat?.bind (st.types[·]?), cut.toNat?, parseVal val with
@@ -347,7 +373,7 @@ def step (st : St) (line : String) : St × Option String :=
   | ["wfails", i, spec, val] =>
       match i.toNat?.bind (st.stypes[·]?), parseVal val with
       | some t, some v =>
-        let (vn, wn, _) := st.snames.getD i.toNat! ([], [], [])
+        let (vn, wn, _, _) := st.snames.getD i.toNat! ([], [], [], [])
         if !(Ty.vec t).wt v then (st, some "illtyped") else
         (st, some (wfailLine (.sliceRef t) vn v spec ++ " | " ++
                    wfailLine (wrapTy (.sliceRef t)) wn (.record [v, .bits 0xBEEF]) spec ++ " frees=0 intact=true"))
